@@ -1,10 +1,10 @@
 """C02 Error items follow the documented span rule and lexing recovers."""
-from props import rt
+from props import cg, rt
 
 ENGINE = 'genscan+mirfacts'
 EXPLANATION = ('Clause claim. On generated code (every corpus definition, both back ends): the error arm of _get_action ends the span at end_to_boundary(max(offset of the fatal byte, start + 1)) and yields '
                'the default error / error callback; every reachable state can still reach a recording state (trim automaton: the walk dies at the first non-viable byte). On MIR: end_to_boundary stores '
-               'find_boundary(offset) only, find_boundary for str rounds forward to a char boundary and is the identity for bytes, next() resumes at the previous end. Not decided: that the trim automaton\'s viable prefixes are exactly those of the patterns (C01).')
+               'find_boundary(offset) only, find_boundary for str rounds forward to a char boundary and is the identity for bytes, next() resumes at the previous end; in Graph::new a late accept is cleared only under a predicate universal over the predecessors (M-C02g), so no viable path loses its only recording state before dead-end pruning. Not decided: that the trim automaton\'s viable prefixes are exactly those of the patterns (C01).')
 
 
 def run(ctx, rep):
@@ -14,6 +14,9 @@ def run(ctx, rep):
         rt.rule_rounding(rep, lg, cfg)
         rt.rule_next_resumes(rep, lg, cfg)
         rt.rule_mapping_table(rep, lg, cfg)      # the error value a pattern callback supplies reaches the item unchanged
+    # a late accept is dropped only when every predecessor records the leaf early (otherwise viable paths are pruned)
+    cg.rule_late_accept_removal(rep, ctx.mir('ws-default')['logos_codegen'])
+    cg.cg_controls(rep, ctx, [('M-C02g', cg.rule_late_accept_removal)])
     rep.trusted += ['rustc nightly MIR', 'engines/mirfacts', 'engines/genscan + lib/genlib.py']
     from props import gen
     gen.rules_c02(ctx, rep)
